@@ -184,8 +184,16 @@ func (ex *tcExec) interesting(n ast.Node, withControl bool) bool {
 
 func (ex *tcExec) lockOps(n ast.Node) bool {
 	found := false
+	inPlace := map[*ast.FuncLit]bool{}
 	ast.Inspect(n, func(x ast.Node) bool {
-		if _, ok := x.(*ast.FuncLit); ok {
+		if es, ok := x.(*ast.ExprStmt); ok {
+			if c, ok := es.X.(*ast.CallExpr); ok {
+				if fl, ok := c.Fun.(*ast.FuncLit); ok {
+					inPlace[fl] = true // a closure called in place (not `go`, not `defer`) runs as part of the function
+				}
+			}
+		}
+		if fl, ok := x.(*ast.FuncLit); ok && !inPlace[fl] {
 			return false
 		}
 		if c, ok := x.(*ast.CallExpr); ok {
